@@ -479,6 +479,8 @@ def _retyped_without_hint(schema: Type[MetadataSchema], fname: str) -> bool:
         return False
     if isinstance(fld.outer_type_, (str, ForwardRef)):
         return False  # not analyzed yet
+    if parent_fld.field_info.const and not _keeps_field_constraints(fld, parent_fld):
+        return True  # the inferred field is not pinned to the value anymore
     return fld.shape == SHAPE_SINGLETON and parent_fld.shape != SHAPE_SINGLETON
 
 
@@ -493,6 +495,8 @@ def _keeps_field_constraints(fld, parent_fld) -> bool:
     if fld.alias != parent_fld.alias:
         return False
     info, parent_info = fld.field_info, parent_fld.field_info
+    if parent_info.const and not (info.const and fld.default == parent_fld.default):
+        return False  # the parent pins the value of the field
     return all(
         getattr(info, c, None) == getattr(parent_info, c)
         for c in parent_info.get_constraints()
